@@ -501,7 +501,7 @@ static int cmd_exec(int argc, char **argv) {
   char buf[300];
   eng_first_line_matching(errpath, "rror", buf, sizeof buf);
   printf("X class=%s fate=%s step=%ld obj=%ld hash=%016llx detail=%s %s\n", cls, fate_names[cr.fate], (long)sim_shared->aux[4], (long)sim_shared->aux[5], (unsigned long long)sim_shared->result_hash, sim_shared->note, buf);
-  unlink(errpath);
+  if (!getenv("M4SIM_KEEP_STDERR")) unlink(errpath);
   return 0;
 }
 
